@@ -20,11 +20,15 @@ type fakeStream struct {
 	failAt   int   // index of the Write call that fails (-1: never)
 	writes   int
 	writeErr error
+	onWrite  func() // runs when Write is entered, before the stream has taken the bytes
 }
 
 var errFakeWrite = errors.New("fake stream: write failed")
 
 func (s *fakeStream) Write(p []byte) (int, error) {
+	if s.onWrite != nil {
+		s.onWrite()
+	}
 	k := s.writes
 	s.writes++
 	if s.failAt >= 0 && k == s.failAt {
